@@ -215,11 +215,16 @@ pub fn canonical(v: Variant, items: &[(u64, f64)]) -> Vec<Batch> {
 }
 
 /// String-keyed Sha variant (keys that are not Copy)
-pub fn run_sha_keys<D: Clone + Eq + std::fmt::Debug + std::hash::Hash + probminhash::probminhasher::sig::Sig>(m: usize, placeholder: D, batches: &[Vec<(D, f64)>]) -> Vec<D> {
+pub fn run_sha_keys<D: Clone + Eq + std::fmt::Debug + std::hash::Hash + probminhash::probminhasher::sig::Sig>(m: usize, placeholder: D, batches: &[(bool, Vec<(D, f64)>)]) -> (Vec<D>, Vec<f64>) {
     let mut s = ProbMinHash3aSha::<D>::new(m, placeholder);
-    for items in batches {
-        let map: IndexMap<D, f64> = items.iter().cloned().collect();
-        s.hash_weigthed_idxmap(&map);
+    for (as_hashmap, items) in batches {
+        if *as_hashmap {
+            let map: HashMap<D, f64> = items.iter().cloned().collect();
+            s.hash_weigthed_hashmap(&map);
+        } else {
+            let map: IndexMap<D, f64> = items.iter().cloned().collect();
+            s.hash_weigthed_idxmap(&map);
+        }
     }
-    s.get_signature().clone()
+    (s.get_signature().clone(), s.verif_registers())
 }
